@@ -83,9 +83,11 @@ fn path_and_query(g: &mut Gen) -> String {
 
 fn headers(g: &mut Gen, hostport: &str, large: bool) -> String {
     let mut h = format!("Host: {hostport}\r\n");
-    let n = if large { g.range(20, 60) } else { g.range(0, 4) };
+    // few short lines, many long lines (several KiB), or many short lines (dozens of header fields within the first KiB)
+    let many_short = !large && g.chance(30);
+    let n = if large { g.range(20, 60) } else if many_short { g.range(13, 70) } else { g.range(0, 4) };
     for i in 0..n {
-        let len = if large { g.range(20, 120) } else { g.range(1, 30) } as usize;
+        let len = if large { g.range(20, 120) } else if many_short { g.range(1, 10) } else { g.range(1, 30) } as usize;
         let val: String = (0..len).map(|_| *g.pick(&[b'a', b'b', b' ', b';', b'=', b'/', b':', b'1']) as char).collect();
         h.push_str(&format!("X-H{i}: {}\r\n", val.trim()));
     }
